@@ -26,5 +26,6 @@ DECLARED = {
     f'{CLI}:resolve_variable': {'arg_mutate:visited'},
     f'{CLI}:process_nodes_recursive': {'arg_mutate:stats', 'arg_mutate:node_list', 'arg_mutate:variables', 'arg_mutate:*via update_decl_value', 'arg_mutate:*via resolve_variable',
                                        'arg_mutate:*via process_nodes_recursive', 'nondet:id()'},      # id(node) only keys the caller's declaration map
-    f'{CLI}:main': {'stdout', 'fs_read:*', 'fs_write:output_path', 'nondet:id()', 'arg_mutate:*via process_nodes_recursive', 'arg_mutate:*via update_decl_value'},
+    f'{CLI}:main': {'stdout', 'fs_read:*', 'fs_write:<local>', 'fs_write:output_path',      # its own _cm.css (a local path) and the report written by generate_report(output_path=default)
+                'nondet:id()', 'arg_mutate:*via process_nodes_recursive', 'arg_mutate:*via update_decl_value'},
 }
